@@ -66,8 +66,14 @@ def plainParams (pm : List Param) : Option (List Nat) :=
 
 def nth0 (l : List Nat) (k : Nat) : Nat := l.getD k 0
 
+/-- SGR parameters of the vocabulary. Outside it (not judged — DEC VT and xterm differ or do not
+    define them): 6 (rapid blink: ECMA-48 only), 21 (xterm: double underline, DEC: undefined, Linux
+    console: bold off), negative values and values above 255 (colour components / indices out of range). -/
 def sgrParams (pm : List Param) : Option (List (List Nat)) :=
-  pm.mapM fun p => if 0 ≤ p.1 ∧ p.2.all (0 ≤ ·) then some (p.1.toNat :: p.2.map Int.toNat) else none
+  pm.mapM fun p =>
+    if 0 ≤ p.1 ∧ p.1 ≠ 6 ∧ p.1 ≠ 21 ∧ p.1 ≤ 255 ∧ p.2.all (fun v => decide (0 ≤ v) && decide (v ≤ 255)) then
+      some (p.1.toNat :: p.2.map Int.toNat)
+    else none
 
 /-- The reference token of an emulator operation; `none` = outside the vocabulary of C06. -/
 def tokOf : EOp → Option Term.Tok
